@@ -791,3 +791,42 @@ def validate_iter(fns, src, nmax):
                                     dropped.append(j)
                             out.append({'n': n, 'front': f, 'back': b, 'op': which, 'arg': k, 'ret': ret, 'index': ev(cur[1]), 'index_back': ev(cur[2]), 'dropped': dropped})
     return out
+
+
+@guarded
+def zip_mixed(fns, src, nmax, which='owned_ref', name=None):
+    """zip with one owned and one borrowed operand: `a.zip(&b, f)` (trait-default inverted_zip, the owned side goes through ArrayConsumer)
+    and `(&a).zip(b, f)` (GenericArray::inverted_zip2, both needs_drop branches); the closure may panic at every call"""
+    N, J = syms('N', 'J')
+    res = Result(name or 'zip.' + which, ['C04', 'C08'], 'N <= %d, needs_drop symbolic, the closure may panic at every call' % nmax)
+    ex = Exec(fns, src, J, N, nmax=nmax)
+    ex.V = Arr('F', bv(2 ** 63))
+    Own, Bor = Arr('Owned', N), Arr('Borrowed', N)
+    st = new_state()
+    bounded(ex, st, N, nmax)
+    st.status[Own] = LIVE
+    st.status[Bor] = LIVE
+    if which == 'owned_ref':
+        ex.self_binding = '&GenericArray'
+        fn = ex.pick(ex.defaults[('GenericSequence', 'inverted_zip')])
+        args = [ArrRef(Bor), Own, Opaque('F')]
+    else:
+        fn = ex.pick(ex.index[('GenericSequence', 'GenericArray', 'inverted_zip2')])
+        args = [Own, ArrRef(Bor), Opaque('F')]
+    t0, paths, unw = time.time(), 0, 0
+    for (s2, kind, val) in ex.run_fn(st, fn, args):
+        paths += 1
+        unw += kind == 'unwind'
+        inA = ULT(J, N)
+        ex.require(s2, z3.Implies(inA, s2.status[Bor] == LIVE), 'a borrowed operand\'s element was moved out or dropped', 'end')
+        nd = ex.needs_drop.get('T', z3.BoolVal(True))
+        if kind == 'ret':
+            ex.require(s2, z3.Implies(inA, ex.stat(s2, val) == LIVE), 'returned array has a slot that is not initialised', 'end')
+            ex.require(s2, z3.Implies(inA, z3.Or(s2.status[Own] == EXTERN, s2.status[Own] == DROPPED)), 'owned input element neither handed to the closure nor dropped', 'end')
+        elif ex.feasible(s2, nd):
+            s2.pc.append(nd)
+            ex.require(s2, z3.Implies(inA, z3.Or(s2.status[Own] == EXTERN, s2.status[Own] == DROPPED)), 'owned input element leaked on unwind', 'end(unwind)')
+            for arr, stt in out_arrays(s2):
+                ex.require(s2, z3.Implies(inA, z3.Or(stt == UNINIT, stt == DROPPED)), 'already-built output element leaked on unwind', 'end(unwind)')
+        ex.require(s2, ex.stat(s2, ex.V) != HELD, 'value produced by caller code lost (neither stored, dropped nor returned)', 'end')
+    return finish(res, ex, t0, paths, unw)
